@@ -10,7 +10,7 @@ IDIOM_MUTANTS = [
     ("table-decode-wrong-char", "R20-3", "C02", "EM-PYQ", QP, "_PCT_TO_CHAR = {escape: chr(i) for i, escape in enumerate(_PCT_ENCODED)}", "_PCT_TO_CHAR = {escape: chr(i | 1) for i, escape in enumerate(_PCT_ENCODED)}"),
     ("partial-path-safe-pipe", "R19-2", "C01", "T3-upper", Q, '_make_path_quoter = partial(_Quoter, safe="@:", protected="/+")', '_make_path_quoter = partial(_Quoter, safe="@:|", protected="/+")'),
     ("partial-query-unprotect-amp", "R19-2", "C02", "T5", Q, '_make_query_quoter = partial(_Quoter, safe="?/:@", protected="=+&;", qs=True)', '_make_query_quoter = partial(_Quoter, safe="?/:@", protected="=+;", qs=True)'),
-    ("factory-quoter-requotes", "R19-3", "C04", "K2", Q, "    quoter = _Quoter(safe=safe, protected=protected, qs=qs, requote=False)", "    quoter = _Quoter(safe=safe, protected=protected, qs=qs, requote=True)"),
+    ("factory-quoter-requotes", "R19-3", "C02", "K2", Q, "    quoter = _Quoter(safe=safe, protected=protected, qs=qs, requote=False)", "    quoter = _Quoter(safe=safe, protected=protected, qs=qs, requote=True)"),
     ("factory-drops-protected", "R19-3", "C02", "T5", Q, "    requoter = _Quoter(safe=safe, protected=protected, qs=qs, requote=True)", "    requoter = _Quoter(safe=safe + protected, qs=qs, requote=True)"),
     ("min-keeps-not-found", "R16-1", "C07", "B2-URL", P, "    return min((pos for pos in candidates if pos >= 0), default=len(url))", "    return min((pos for pos in candidates), default=len(url))"),
     ("min-forgets-hash", "R16-1", "C07", "B2-URL", P, '    if has_hash:\n        candidates.append(url.find("#", 2))\n', ""),
